@@ -47,6 +47,29 @@ def wake (m : Mon) (cvs : List CV) : Status → Status
   | .asleep m' cv => if m' = m ∧ cv ∈ cvs then .running else .asleep m' cv
   | s => s
 
+/-- the methods of `UncompressedFile` that the pipelines call -/
+inductive UMeth where
+  | read | seekg | writeCont | writeBytes | setFileSize | abort | dropOldData
+  deriving DecidableEq, Repr
+
+/-- condition variables notified by each method of `UncompressedFile` (tied to the source by `Blf.MonitorTie`);
+    `read` notifies `tellgChanged` twice: when it publishes its demand before waiting, and at its end -/
+@[reducible] def uNotifies : UMeth → List CV
+  | .read => [.tellg]
+  | .seekg => [.tellg]
+  | .writeCont => [.tellp]
+  | .writeBytes => [.tellp]
+  | .setFileSize => [.tellp]
+  | .abort => [.tellg, .tellp]
+  | .dropOldData => []
+
+/-- the condition variable a method of `UncompressedFile` waits on -/
+@[reducible] def uWaitsOn : UMeth → Option CV
+  | .read => some .tellp
+  | .writeCont => some .tellg
+  | .writeBytes => some .tellg
+  | _ => none
+
 /-- the positions of the in-memory stream (`m_tellg`, `m_tellp`, `m_fileSize`, `m_bufferSize`,
     `m_readDemand`, `m_abort`) -/
 structure UP where
@@ -94,24 +117,24 @@ inductive Step : Sys → Sys → Prop
   -- inflater -----------------------------------------------------------------------------------
   | push (s : Sys) (c : Nat) (r : List Nat) (h1 : s.inf = .running) (h2 : s.toPush = c :: r)
       (hg : s.u.guardWrite = true) :
-      Step s { s with u := { s.u with tellp := s.u.tellp + c }, toPush := r, par := wake .u [.tellp] s.par }
+      Step s { s with u := { s.u with tellp := s.u.tellp + c }, toPush := r, par := wake .u (uNotifies .writeCont) s.par }
   | pushBlock (s : Sys) (c : Nat) (r : List Nat) (h1 : s.inf = .running) (h2 : s.toPush = c :: r)
       (hg : s.u.guardWrite = false) :
       Step s { s with inf := .asleep .u .tellg }
   | infEos (s : Sys) (h1 : s.inf = .running) (h2 : s.toPush = [] ∨ s.stopReq = true) :
-      Step s { s with u := { s.u with fileSize := s.u.tellp }, inf := .done, par := wake .u [.tellp] s.par }
+      Step s { s with u := { s.u with fileSize := s.u.tellp }, inf := .done, par := wake .u (uNotifies .setFileSize) s.par }
   -- parser -------------------------------------------------------------------------------------
   | uread (s : Sys) (n : Nat) (r : List POp) (j : Nat) (h1 : s.par = .running) (h2 : s.prog = .uread n :: r)
       (hg : s.u.guardRead n = true) (hj : j ≤ n) :
       Step s { s with u := { s.u with tellg := s.u.tellg + j, demand := 0 }, prog := r,
-                      inf := wake .u [.tellg] s.inf }
+                      inf := wake .u (uNotifies .read) s.inf }
   | ureadBlock (s : Sys) (n : Nat) (r : List POp) (h1 : s.par = .running) (h2 : s.prog = .uread n :: r)
       (hg : s.u.guardRead n = false) :
       Step s { s with u := { s.u with demand := (n : Int) + s.u.tellg }, par := .asleep .u .tellp,
-                      inf := wake .u [.tellg] s.inf }
+                      inf := wake .u (uNotifies .read) s.inf }
   | useek (s : Sys) (off : Int) (r : List POp) (h1 : s.par = .running) (h2 : s.prog = .useek off :: r) :
       Step s { s with u := { s.u with tellg := min (s.u.tellg + off) s.u.fileSize }, prog := r,
-                      inf := wake .u [.tellg] s.inf }
+                      inf := wake .u (uNotifies .seekg) s.inf }
   | udrop (s : Sys) (r : List POp) (h1 : s.par = .running) (h2 : s.prog = .udrop :: r) :
       Step s { s with prog := r }
   | qwrite (s : Sys) (x : Nat) (r : List POp) (h1 : s.par = .running) (h2 : s.prog = .qwrite x :: r)
@@ -139,8 +162,8 @@ inductive Step : Sys → Sys → Prop
   | close (s : Sys) (h1 : s.app = .running) :
       Step s { s with u := { s.u with abort := true }, q := (Queue.step s.q .abort).1, stopReq := true,
                       app := .done,
-                      inf := wake .u [.tellg, .tellp] s.inf,
-                      par := wake .q [.tellg, .tellp] (wake .u [.tellg, .tellp] s.par) }
+                      inf := wake .u (uNotifies .abort) s.inf,
+                      par := wake .q (Queue.notifies .abort) (wake .u (uNotifies .abort) s.par) }
 
 def init (bufU : Int) (capQ : Nat) (conts : List Nat) (prog : List POp) : Sys :=
   { u := { bufferSize := bufU }, q := { bufferSize := capQ }, toPush := conts, inf := .running, prog := prog,
@@ -479,8 +502,8 @@ theorem inv_step (all : List POp) (s t : Sys) (hi : Inv all s) (hst : Step s t) 
       obtain ⟨h3, h4⟩ := wake_asleep _ _ _ _ _ h
       obtain ⟨h5, h6⟩ := wake_asleep _ _ _ _ _ h3
       rcases hi.parSleep m cv h5 with ⟨rfl, rfl, _⟩ | ⟨rfl, rfl, _⟩
-      · exact absurd ⟨rfl, by simp⟩ h6
-      · exact absurd ⟨rfl, by simp⟩ h4
+      · exact absurd ⟨rfl, by decide⟩ h6
+      · exact absurd ⟨rfl, by decide⟩ h4
     · intro m cv h; cases h
     · intro h; exact hi.infDone ((wake_eq_done _ _ _).1 h)
     · intro h; have := hi.parDone ((wake_eq_done _ _ _).1 ((wake_eq_done _ _ _).1 h)); simpa [Queue.step] using this
@@ -617,20 +640,20 @@ theorem wApp_wake (m : Mon) (cvs : List CV) (st : Status) : wApp (wake m cvs st)
 theorem measure_step (s t : Sys) (hst : Step s t) : measure t < measure s := by
   cases hst with
   | push c r h1 h2 hg =>
-    have := wPar_wake .u [.tellp] s.par
+    have := wPar_wake .u (uNotifies .writeCont) s.par
     simp only [measure, h2, List.length_cons]; omega
   | pushBlock c r h1 h2 hg => simp only [measure, h1, wInf]; omega
   | infEos h1 h2 =>
-    have := wPar_wake .u [.tellp] s.par
+    have := wPar_wake .u (uNotifies .setFileSize) s.par
     simp only [measure, h1, wInf]; omega
   | uread n r j h1 h2 hg hj =>
-    have := wInf_wake .u [.tellg] s.inf
+    have := wInf_wake .u (uNotifies .read) s.inf
     simp only [measure, h2, List.length_cons]; omega
   | ureadBlock n r h1 h2 hg =>
-    have := wInf_wake .u [.tellg] s.inf
+    have := wInf_wake .u (uNotifies .read) s.inf
     simp only [measure, h1, wPar]; omega
   | useek off r h1 h2 =>
-    have := wInf_wake .u [.tellg] s.inf
+    have := wInf_wake .u (uNotifies .seekg) s.inf
     simp only [measure, h2, List.length_cons]; omega
   | udrop r h1 h2 => simp only [measure, h2, List.length_cons]; omega
   | qwrite x r h1 h2 hg =>
@@ -648,8 +671,8 @@ theorem measure_step (s t : Sys) (hst : Step s t) : measure t < measure s := by
     simp only [measure, Queue.step, hq, h0]; simp; omega
   | recvBlock h1 h0 hg => simp only [measure, h1, wApp]; omega
   | close h1 =>
-    have := wInf_wake .u [.tellg, .tellp] s.inf
-    have := wPar_wake2 .q .u [.tellg, .tellp] [.tellg, .tellp] s.par
+    have := wInf_wake .u (uNotifies .abort) s.inf
+    have := wPar_wake2 .q .u (Queue.notifies .abort) (uNotifies .abort) s.par
     simp only [measure, h1, wApp, Queue.step]; omega
 
 /-! ### what the application receives -/
